@@ -578,6 +578,11 @@ impl<'a> Parser<'a> {
                         ParserErrorType::ExpectedRightArrow
                     )?;
 
+                    // `{ }` addresses nothing (and from_linear requires at least one part)
+                    if json_access_parts.is_empty() {
+                        return Err(self.create_error(ParserErrorType::ExpectedJsonColumnPartStart));
+                    }
+
                     let json_access = JsonAccess::from_linear(json_access_parts);
                     columns.push(self.parse_define_column(ColumnParsing::Json(json_access))?);
                 }
